@@ -1023,6 +1023,17 @@ func DerivesFromDirectOrCalls(v ssa.Value, pred func(ssa.Value) bool) bool {
 func ReachingValues(v ssa.Value) []ssa.Value {
 	if u, ok := v.(*ssa.UnOp); ok && u.Op == token.MUL {
 		if a, ok := u.X.(*ssa.Alloc); ok {
+			if CellWrittenByClosure(a) {
+				// flow-insensitive but complete: every store to the cell, the capturing literals' included
+				var out []ssa.Value
+				for _, s := range cellStores(a) {
+					out = append(out, s.Val)
+				}
+				if len(out) > 0 {
+					return out
+				}
+				return []ssa.Value{v}
+			}
 			st := reachingStores(a, u)
 			if len(st) > 0 {
 				var out []ssa.Value
